@@ -325,6 +325,7 @@ package sio
 //@   monitor mu: !(this.called && this.timedOut) [C03.mon.exclusive]
 
 //@ func (*ackHandler).call
+//@   callback
 //@   opt safety off
 //@   ghost invoked int = 0
 //@   ghost locks int = 0
@@ -560,7 +561,8 @@ package sio
 // ---------------------------------------------------------------------------------------------
 // C12. Namespace middlewares run in registration order on (socket, handshake); nothing is called after the first
 // rejection; the result is nil exactly when every registered middleware accepted; a rejection is carried verbatim.
-// assumption: a middleware does not change the chain while it runs (Use would block on middlewareFuncsMu).
+// The chain that runs is the chain as registered when the run starts (a snapshot taken under the mutex); the
+// middlewares themselves run with no lock held, so a middleware may call Use.
 //@ func (*Namespace).runMiddlewares
 //@   opt safety off
 //@   ghost calls int = 0
@@ -568,14 +570,15 @@ package sio
 //@   ghost lastret any = nil
 //@   callsite f skip
 //@     requires !rejected [C12.chain.stop]
-//@     requires calls < len(n.middlewareFuncs) && callee == n.middlewareFuncs[calls] [C12.chain.order]
+//@     requires calls < len(funcs) && callee == funcs[calls] [C12.chain.order]
 //@     requires unbox(arg0, *serverSocket) == socket && arg1 == handshake [C12.chain.sees]
 //@     update calls = calls + 1
 //@     updateafter rejected = result != nil
 //@     updateafter lastret = result
 //@   loop 0 invariant calls == rangeindex + 1 && !rejected
+//@   loop 0 invariant len(funcs) == old(len(n.middlewareFuncs)) && (forall k int :: 0 <= k && k < len(funcs) ==> funcs[k] == old(n.middlewareFuncs[k])) [C12.chain.snapshot]
 //@   ensures result == nil <==> !rejected [C12.chain.result]
-//@   ensures result == nil ==> calls == len(n.middlewareFuncs) [C12.chain.all]
+//@   ensures result == nil ==> calls == old(len(n.middlewareFuncs)) [C12.chain.all]
 //@   ensures result != nil ==> typeis(result, *middlewareError) && unbox(result, *middlewareError).v == lastret [C12.chain.carries]
 
 // A socket built from a restored session - and only such a socket - reports Recovered().
@@ -717,18 +720,20 @@ package sio
 //@   ghost lasterr error = nil
 //@   callsite (*serverSocket).callMiddlewareFunc skip
 //@     requires !rejected [C12.ev.chain.stop]
-//@     requires calls < len(s.middlewareFuncs) && arg0 == s.middlewareFuncs[calls] && arg1 == values [C12.ev.chain.order]
+//@     requires calls < len(funcs) && arg0 == funcs[calls] && arg1 == values [C12.ev.chain.order]
 //@     update calls = calls + 1
 //@     updateafter rejected = result != nil
 //@     updateafter lasterr = result
 //@   loop 0 invariant calls == rangeindex + 1 && !rejected
+//@   loop 0 invariant len(funcs) == old(len(s.middlewareFuncs)) && (forall k int :: 0 <= k && k < len(funcs) ==> funcs[k] == old(s.middlewareFuncs[k])) [C12.ev.chain.snapshot]
 //@   ensures result == nil <==> !rejected [C12.ev.chain.result]
-//@   ensures result == nil ==> calls == len(s.middlewareFuncs) [C12.ev.chain.all]
+//@   ensures result == nil ==> calls == old(len(s.middlewareFuncs)) [C12.ev.chain.all]
 //@   ensures result != nil ==> result == lasterr [C12.ev.chain.carries]
 
 // One event middleware: called once with the values; a non-nil return or a panic (with an error or with anything
 // else) is a rejection.
 //@ func (*serverSocket).callMiddlewareFunc
+//@   callback
 //@   opt safety off
 //@   ghost called int = 0
 //@   ghost retnil bool = false
@@ -1079,3 +1084,54 @@ package sio
 //@   opt safety off
 //@   callsite onParserFinish$1 go
 //@     requires false [C02.dispatch.in.arrival.order.server]
+
+// ---------------------------------------------------------------------------------------------
+// C16. Lock discipline: which mutex guards which fields (every read/write of a guarded field outside the constructor
+// needs that mutex of the same object; checked in lock mode over every function of the package).
+//@ type clientSocketStore
+//@   guarded_by (mu) sockets
+//@ type serverSocketStore
+//@   guarded_by (mu) socketsByID, socketsByNsp
+//@ type nspStore
+//@   guarded_by (mu) nsps
+//@ type nspSocketStore
+//@   guarded_by (mu) sockets
+//@ type handlerStore
+//@   guarded_by (mu) funcs, funcsOnce, subs
+//@ type eventHandlerStore
+//@   guarded_by (mu) events, eventsOnce
+//@ type ackHandler
+//@   guarded_by (mu) called, timedOut
+//@ type clientPacketQueue
+//@   guarded_by (mu) seq, queuedPackets
+//@ type queuedPacket
+//@   guarded_by (mu) tryCount, pending
+//@ type packetQueue
+//@   guarded_by (mu) packets
+//@ type Manager
+//@   guarded_by (stateMu) state
+//@   guarded_by (eioMu) eio, eioPacketQueue
+//@   guarded_by (skipReconnectMu) skipReconnect
+//@   guarded_by (subsMu) subs
+//@ type clientSocket
+//@   guarded_by (stateMu) state
+//@   guarded_by (authDataMu) authData
+//@   guarded_by (sendBufferMu) sendBuffer
+//@   guarded_by (receiveBufferMu) receiveBuffer
+//@   guarded_by (acksMu) acks, ackID
+//@   guarded_by (activeMu) active, subDeregister
+//@ type serverConn
+//@ type serverSocket
+//@   guarded_by (connectedMu) connected
+//@   guarded_by (acksMu) acks
+//@   guarded_by (middlewareFuncsMu) middlewareFuncs
+//@   guarded_by (joinMu) join
+//@ type Namespace
+//@   guarded_by (middlewareFuncsMu) middlewareFuncs
+//@   guarded_by (ackMu) ackID
+//@ type backoff
+//@   guarded_by (numAttemptsMu) numAttempts
+
+// C16: functions that run user handlers synchronously (callers must not hold a lock across them).
+//@ func (*eventHandler).call
+//@   callback
